@@ -274,6 +274,13 @@ pub fn check(c: &Case, stats: &mut Stats) -> CheckResult {
     if c.terms.len() != present.len() {
         stats.label("duplicate-new_term");
     }
+    if present.len() >= 3 {
+        let (lo, hi) = (*present.iter().next().unwrap(), *present.iter().next_back().unwrap());
+        let hole = |x: &u32| *x > lo && *x < hi && !present.contains(x);
+        if (hi - lo) as usize == present.len() && (c.parents.iter().any(|(p, ch)| hole(p) || hole(ch)) || c.ann.iter().any(|a| a.term.as_ref().is_some_and(hole))) {
+            stats.label("absent-id-is-the-only-hole-of-a-run-of-present-ids");
+        }
+    }
     if c.defaults {
         stats.label("build_with_defaults");
     }
@@ -300,7 +307,7 @@ fn strategy(tier: Tier) -> BoxedStrategy<Case> {
     (
         // (names of any length: one in six comes from the pool of long / multi-byte / control-character names)
         vec((any::<u32>(), prop_oneof![5 => name_strategy(NameMode::Plain), 1 => name_strategy(NameMode::Rich)]), 1..=max),
-        0u8..3,
+        0u8..4,
         vec((any::<u16>(), any::<u16>(), 0u8..10, any::<u32>()), 0..30),
         vec((0u8..3, 0u8..6, any::<u16>(), 0u8..10, any::<u32>()), 0..30),
         vec(prop_oneof![5 => name_strategy(NameMode::Plain), 1 => name_strategy(NameMode::Rich)], 6),
@@ -319,6 +326,14 @@ fn strategy(tier: Tier) -> BoxedStrategy<Case> {
             for (i, (r, _)) in raw_terms.iter().enumerate() {
                 let mut id = match id_mode {
                     0 => i as u32 + 2,
+                    // a run of consecutive ids with exactly one hole (two for longer runs)
+                    3 => {
+                        let n = raw_terms.len() as u32;
+                        let h1 = 1 + raw_terms[0].0 % n.max(2);
+                        let h2 = if n > 6 { 2 + (raw_terms[0].0 / 7) % n } else { u32::MAX };
+                        let k = i as u32;
+                        300 + k + u32::from(k >= h1) + u32::from(k + u32::from(k >= h1) >= h2)
+                    }
                     1 => r % 10_000_000,
                     _ => [0, 9_999_999, 2, 3, 500][i % 5] + (i as u32 / 5),
                 } % 10_000_000;
@@ -353,6 +368,16 @@ fn strategy(tier: Tier) -> BoxedStrategy<Case> {
                     2 => 0,
                     3 => 9_999_999,
                     4 => 1 + (r / 8) % 3,
+                    // a hole inside the range of the present ids, if there is one
+                    5 | 6 if ids.len() >= 2 => {
+                        let (lo, hi) = (*ids.iter().min().unwrap(), *ids.iter().max().unwrap());
+                        let holes: Vec<u32> = (lo..hi).filter(|x| !used.contains(x)).take(40).collect();
+                        if holes.is_empty() {
+                            r % 10_000_000
+                        } else {
+                            holes[(r / 16) as usize % holes.len()]
+                        }
+                    }
                     _ => r % 10_000_000,
                 };
                 while used.contains(&a) {
@@ -471,7 +496,7 @@ impl Property for C15 {
         "C15"
     }
     fn rule(&self) -> String {
-        "Generated call histories in the order the Builder typestates allow: new_term* (duplicates, ids dense / sparse / borders) -> add_parent* over present and absent ids (present pairs keep the graph acyclic; absent ids are neighbours, far values, the borders 0 / 1 / 9_999_999, values >= 10^7 and near u32::MAX, and aliases of present ids under power-of-two masks / decimal moduli such as id + k*2^24; one history in eight closes with add_parent(x, x) or with the reverse of an accepted link or chain of two links: such a cycle-closing call is accepted on the unchanged tree, where the history then ends, and must be without effect if it is rejected) -> add_gene/add_*_disease and annotate_* over present and absent terms (failing calls carry a different record name; names of any length, some longer than the 255 bytes the binary format stores) -> calculate_information_content -> build_minimal / build_with_defaults, set_hpo_version in a generated typestate; 20-50 % of the calls fail by construction. Deterministic histories in their own processes: more than 65 535 new_term calls; chains of 300 (thorough 3 000) terms with ids ascending / descending with depth and accepted and rejected annotate_* calls at many depths. Stateful oracle: an interpreter of the history over plain sets predicts every Ok/Err; the built ontology is walked through the complete read API under catch_unwind (every handed-out id must resolve); its snapshot must equal the reference model of the successful calls AND the snapshot of the ontology built from the successful calls alone. evaluations = Builder calls. Non-trivial = >=1 failing add_parent with a present parent, >=1 failing annotate_*, and a later successful annotate on the same record; distinct by hash of the history.".into()
+        "Generated call histories in the order the Builder typestates allow: new_term* (duplicates, ids dense / sparse / borders / a run of consecutive ids with one or two holes) -> add_parent* over present and absent ids (present pairs keep the graph acyclic; absent ids are neighbours, holes inside the range of the present ids, far values, the borders 0 / 1 / 9_999_999, values >= 10^7 and near u32::MAX, and aliases of present ids under power-of-two masks / decimal moduli such as id + k*2^24; one history in eight closes with add_parent(x, x) or with the reverse of an accepted link or chain of two links: such a cycle-closing call is accepted on the unchanged tree, where the history then ends, and must be without effect if it is rejected) -> add_gene/add_*_disease and annotate_* over present and absent terms (failing calls carry a different record name; names of any length, some longer than the 255 bytes the binary format stores) -> calculate_information_content -> build_minimal / build_with_defaults, set_hpo_version in a generated typestate; 20-50 % of the calls fail by construction. Deterministic histories in their own processes: more than 65 535 new_term calls; chains of 300 (thorough 3 000) terms with ids ascending / descending with depth and accepted and rejected annotate_* calls at many depths. Stateful oracle: an interpreter of the history over plain sets predicts every Ok/Err; the built ontology is walked through the complete read API under catch_unwind (every handed-out id must resolve); its snapshot must equal the reference model of the successful calls AND the snapshot of the ontology built from the successful calls alone. evaluations = Builder calls. Non-trivial = >=1 failing add_parent with a present parent, >=1 failing annotate_*, and a later successful annotate on the same record; distinct by hash of the history.".into()
     }
     fn assumptions(&self) -> Vec<String> {
         vec![
@@ -486,7 +511,7 @@ impl Property for C15 {
         }
     }
     fn required_labels(&self, _tier: Tier) -> Vec<&'static str> {
-        vec!["nontrivial", "failing-add_parent(present parent, absent child)", "failing-add_parent(absent parent, present child)", "failing-annotate", "duplicate-new_term", "absent-id-0", "build_with_defaults", "record-mentioned-only-by-failing-calls", "absent-id-equal-to-a-present-id-mod-2^24", "bulk>65535-terms", "add_parent(x,x)-accepted:history-ends", "cycle-closing-add_parent-accepted:history-ends", "chain>255-links", "record-name-longer-than-255-bytes"]
+        vec!["nontrivial", "failing-add_parent(present parent, absent child)", "failing-add_parent(absent parent, present child)", "failing-annotate", "duplicate-new_term", "absent-id-0", "build_with_defaults", "record-mentioned-only-by-failing-calls", "absent-id-equal-to-a-present-id-mod-2^24", "bulk>65535-terms", "add_parent(x,x)-accepted:history-ends", "cycle-closing-add_parent-accepted:history-ends", "chain>255-links", "record-name-longer-than-255-bytes", "absent-id-is-the-only-hole-of-a-run-of-present-ids"]
     }
     fn run_generated(&self, tier: Tier, seed: u64, n: u64, stats: &mut Stats) -> Option<(Value, Failure)> {
         run_typed(strategy(tier), seed, n, stats, check)
